@@ -406,6 +406,13 @@ func (x *gg) genObjectWith(depth int, self string, maxAttrs int, names map[strin
 				x.s.AddFeature("default")
 			}
 		}
+		// a default declared on an attribute whose type is a primitive alias (it must satisfy the alias's validations)
+		if _, aut := x.s.Resolve(a.Type); !required && a.Type.Kind == spec.Ref && aut != nil && aut.Kind == "alias" && spec.IsPrim(rt.Kind) && rt.Kind != spec.Bytes && x.chance(1, 2) {
+			if d := x.genDefault(rt.Kind, aut.Val); d != nil {
+				a.Default, a.HasDef = d, true
+				x.s.AddFeature("default", "default-on-alias-attribute")
+			}
+		}
 		o.Attrs = append(o.Attrs, a)
 	}
 	return o
@@ -422,6 +429,18 @@ var brokenMethNames = []string{"String", "bytes", "map", "message"}
 func (x *gg) genTypes() {
 	used := map[string]bool{}
 	n := x.r.Range(1, 4)
+	if x.chance(1, 2) {
+		// a primitive alias that later object types can use for (defaulted) attributes
+		al := &spec.UserType{Name: "LevelAlias", Kind: "alias", Def: &spec.Type{Kind: x.r.Pick(spec.Int, spec.String, spec.Boolean, spec.Float64, spec.UInt32)}}
+		used[spec.Norm(al.Name)] = true
+		if x.chance(1, 3) {
+			if v := x.genVal(al.Def.Kind); !v.Empty() {
+				al.Val = v
+			}
+		}
+		x.s.Types = append(x.s.Types, al)
+		x.s.AddFeature("alias")
+	}
 	for i := 0; i < n; i++ {
 		var name string
 		for {
